@@ -482,6 +482,52 @@ func (fr *Frame) callSiteChecks(st *State, cc *ssa.CallCommon, args []Term, in s
 	}
 }
 
+// closureSiteChecks: a `callsite outer$k@n` clause whose name is a function literal of the
+// function under contract is checked where that literal is turned into a function value (the
+// point at which the continuation is built): $i / the captured variable's name stand for
+// the values bound into the closure.
+func (fr *Frame) closureSiteChecks(st *State, x *ssa.MakeClosure, fn *ssa.Function, binds []Term) {
+	vc := fr.vc
+	contract := fr.contract
+	if contract == nil || len(contract.CallSites) == 0 || fr.depth > 0 {
+		return
+	}
+	name := fn.Name()
+	matched := false
+	for _, cs := range contract.CallSites {
+		if cs.Callee == name {
+			matched = true
+		}
+	}
+	if !matched {
+		return
+	}
+	n := vc.ordinal("cs:" + fr.path + name)
+	for _, cs := range contract.CallSites {
+		if cs.Callee != name || (cs.Ord != 0 && cs.Ord != n) {
+			continue
+		}
+		env := fr.baseEnv(st)
+		blk := x.Block()
+		env.lookup = func(nm string) (SpecVal, bool) { return fr.lookupLocal(nm, blk, st, nil) }
+		env.lookupAddr = fr.lookupLocalAddr
+		for i, fv := range fn.FreeVars {
+			if i >= len(binds) {
+				break
+			}
+			env.vars[fmt.Sprintf("$%d", i)] = SpecVal{T: binds[i], Ty: fv.Type()}
+		}
+		t, err := env.EvalBool(cs.Clause.E)
+		if err != nil {
+			vc.note("contract error: callsite %s@%d %s: %v", name, n, cs.Clause.Label, err)
+			continue
+		}
+		vc.addObl(&Obligation{Name: fr.oblName("callsite", fmt.Sprintf("%s.%s@%d", name, cs.Clause.Label, n)), Kind: "callsite", Reach: st.reach, Cond: t,
+			Taint: st.taint, Pos: fr.pos(x.Pos()), Descr: "where the function literal " + name + " is built: " + cs.Clause.Src})
+		st.assume(t)
+	}
+}
+
 func sealedInterface(it *types.Interface) bool {
 	for i := 0; i < it.NumMethods(); i++ {
 		if !it.Method(i).Exported() {
@@ -993,11 +1039,20 @@ func (fr *Frame) applyContract(st *State, c *FuncContract, key string, sig *type
 	}
 	sk := shortKey(key)
 	n := vc.ordinal("pre:" + fr.path + sk)
+	assumePre := false
+	if sh := vc.ctx.contracts[vc.rootPkg()+"=>"+key]; sh != nil && sh != c && sh.AssumePre {
+		assumePre = true
+		vc.assume("preconditions of " + key + " are assumed, not checked, at calls from package " + vc.rootPkg() + " (assumepre in its contract file)")
+	}
 	for _, rq := range c.Requires {
 		t, err := env.EvalBool(rq.E)
 		if err != nil {
 			vc.note("contract error: %s requires %s: %v", key, rq.Label, err)
 			st.taint = True
+			continue
+		}
+		if assumePre {
+			st.assume(t)
 			continue
 		}
 		vc.addObl(&Obligation{Name: fr.oblName("pre", fmt.Sprintf("%s@%d.%s", sk, n, rq.Label)), Kind: "pre", Reach: st.reach, Cond: t,
